@@ -338,7 +338,7 @@ __ordtostr(char *buf, size_t bsz, size_t ndigits)
 	} else if (UNLIKELY(p[-2] == '1')) {
 		/* must be 11, 12, or 13 then */
 		goto teens;
-	} else if (p[-2] == '0') {
+	} else if (ndigits == 2U && p[-2] == '0') {
 		/* discard */
 		p[-2] = p[-1];
 		p--;
